@@ -32,6 +32,9 @@ def check(ctx, rep, spec):
             if a != b:
                 cls = proc.cls_of(spec)
                 cls['enc'] = 'FAST'
+                if spec.get('cons'):
+                    cs = spec['cons'][0]['cs']
+                    cls['cons_mixed'] = any(len({r[c_] is None for c_ in cs}) > 1 for r in f['P'].model)
                 rep.disagree('fast-vs-complete', {'spec': spec, 'enc': 'FAST'},
                              {'fast_only': [str(k) for k in sorted(a - b, key=str)[:3]],
                               'complete_only': [str(k) for k in sorted(b - a, key=str)[:3]]}, cls)
